@@ -139,6 +139,15 @@ fn step(line: &str, st: &mut Streams) -> Option<i32> {
                 let _ = std::fs::write(&outfile, body);
             }
         }
+        "chmod" => {
+            // "<octal mode> <hex path>": change the permission bits of a file (a bootstrap step that
+            // makes a later command executable, or a clean-up step that takes the bit away)
+            let mut p = arg.splitn(2, ' ');
+            let mode = u32::from_str_radix(p.next().unwrap_or("644"), 8).unwrap_or(0o644);
+            let path = String::from_utf8_lossy(&unhex(p.next().unwrap_or(""))).into_owned();
+            use std::os::unix::fs::PermissionsExt;
+            let _ = std::fs::set_permissions(&path, std::fs::Permissions::from_mode(mode));
+        }
         "bg" => {
             // "<ms>": leave a background process behind that keeps this process's stdout and stderr
             // open for that long (a daemon or `sleep 3 &` started without redirecting its output)
